@@ -5,6 +5,7 @@ from checks.common import AFF, INF, aff, farr, iarr, scale_of, call_warn, pair_c
 from mc.enumerate import lattice_points, distinct_permutations
 from oracles import matching as om
 
+CALL_VARIANTS = True   # every whitelisted persim call is repeated with its arrays in another memory layout (mc/ctx.py)
 PROPERTY = "C02"
 RULE = (
     "all ordered pairs (S,T) of multisets of <= n lattice points {0<=b<=d<=G} (diagonal points, "
